@@ -79,4 +79,60 @@ theorem add_by_try (self : Self) (ni : String) (o : AFTOperationC) (e : AFTEntry
       | true => simpa using add_unresolved_nofwd self ni o niKnown niValid orig hookErr oks fails stack pend e hfresh hk hv he
       | false => simpa using add_held self ni o niKnown niValid orig hookErr oks fails stack pend e hfresh hk hv he
 
+
+/-! ### the same chain for a DELETE -/
+
+/-- what the caller of a table-level delete concludes from its three results -/
+def dtryOfResult (r : Bool × Option Unit × Option Status × List Eff) : Rib.DTry :=
+  if r.2.2.1.isSome then .err else if !r.1 then .refd else if r.2.1.isSome then .ok else .absent
+
+/-- the kind's own refusal of a key that names nothing -/
+def preErrOf : Key → Bool
+  | .mpls l => decide (l > Rib.maxLabel)
+  | .nhg g => decide (g = 0)
+  | .nh i => decide (i = 0)
+  | _ => false
+
+/-- the table-level delete of a well-formed request, with the translated `canDelete` as its check,
+decides exactly the model's `classifyDel` (refused / still referenced / not installed / removed) -/
+theorem table_classifyDel (s : Rib) (op : Op) (d : NI) (hni : op.ni ≠ "") (hk : s.hasNI op.ni = true) (hc : op.cls = .wf)
+    (kind : Nat) (useKeyErr : Bool) (hook : Option Unit) (name : String) :
+    dtryOfResult (tableDelSpec kind (preErrOf op.key) useKeyErr false (some ())
+        (if s.has (op.ni, op.key) then some () else none) none (some ())
+        (Gen.canDelete op.ni (some (candOf op.key op.pl)) none d (fun n => s.hasNI n) (fun n g => s.has (n, .nhg g))
+          (fun n i => s.has (n, .nh i)) (fun n g => decide (Rib.cnt s.nhgRef (n, g) > 0))
+          (fun n i => decide (Rib.cnt s.nhRef (n, i) > 0))).1
+        (Gen.canDelete op.ni (some (candOf op.key op.pl)) none d (fun n => s.hasNI n) (fun n g => s.has (n, .nhg g))
+          (fun n i => s.has (n, .nh i)) (fun n g => decide (Rib.cnt s.nhgRef (n, g) > 0))
+          (fun n i => decide (Rib.cnt s.nhRef (n, i) > 0))).2
+        hook name) = Rib.classifyDel s op := by
+  rw [gen_canDelete s d op.ni op.key op.pl hni hk, classifyDel_eq]
+  simp only [hc, ne_eq, not_true_eq_false, if_false]
+  cases hkey : op.key with
+  | v4 p =>
+    by_cases hh : s.has (op.ni, Key.v4 p) = true <;>
+      simp [tableDelSpec, dtryOfResult, preErrOf, delTry, dtryOut, hh]
+  | v6 p =>
+    by_cases hh : s.has (op.ni, Key.v6 p) = true <;>
+      simp [tableDelSpec, dtryOfResult, preErrOf, delTry, dtryOut, hh]
+  | mpls l =>
+    by_cases hl : l > Rib.maxLabel
+    · simp [tableDelSpec, dtryOfResult, preErrOf, hl]
+    · by_cases hh : s.has (op.ni, Key.mpls l) = true <;>
+        simp [tableDelSpec, dtryOfResult, preErrOf, delTry, dtryOut, hh, hl]
+  | nhg g =>
+    by_cases hg : g = 0
+    · simp [tableDelSpec, dtryOfResult, preErrOf, delTry, hg]
+    · by_cases hh : s.has (op.ni, Key.nhg g) = true
+      · by_cases hr : Rib.cnt s.nhgRef (op.ni, g) > 0 <;>
+          simp [tableDelSpec, dtryOfResult, preErrOf, delTry, dtryOut, hh, hg, hr]
+      · simp [tableDelSpec, dtryOfResult, preErrOf, delTry, dtryOut, hh, hg]
+  | nh i =>
+    by_cases hg : i = 0
+    · simp [tableDelSpec, dtryOfResult, preErrOf, delTry, hg]
+    · by_cases hh : s.has (op.ni, Key.nh i) = true
+      · by_cases hr : Rib.cnt s.nhRef (op.ni, i) > 0 <;>
+          simp [tableDelSpec, dtryOfResult, preErrOf, delTry, dtryOut, hh, hg, hr]
+      · simp [tableDelSpec, dtryOfResult, preErrOf, delTry, dtryOut, hh, hg]
+
 end Gribi.GenEquiv.RibChain
